@@ -139,6 +139,10 @@ class FuseSuccessiveClip(_FuseReluClipBase):
             return None
 
         min_clip = combine(min_clip1, min_clip2, np.maximum)
+        if max_clip1 is not None and min_clip2 is not None:
+            # Clip(x, lo, hi) = min(max(x, lo), hi): when the second minimum exceeds
+            # the first maximum, the intermediate result is raised to the second minimum.
+            max_clip1 = np.maximum(max_clip1, min_clip2)
         max_clip = combine(max_clip1, max_clip2, np.minimum)
 
         return min_clip, max_clip
